@@ -321,7 +321,8 @@ fn must_reject(e: &Entry, input: &[u8], what: &str, sig: &str, ctx: &mut Ctx) ->
 
 fn pick_type(s: &mut Src<'_>) -> &'static Entry {
     let reg = registry();
-    &reg[s.below(reg.len())]
+    // uniform over the registry (two choice bytes; monotone, 0 = first entry)
+    &reg[(usize::from(s.u16()) * reg.len()) >> 16]
 }
 
 struct Lcg(u64);
@@ -801,7 +802,7 @@ fn case_program(bytes: &[u8], ctx: &mut Ctx) -> CaseResult {
     ensure_hook();
     let mut s = Src::new(bytes);
     let pt = program_types();
-    let e = &registry()[pt[s.below(pt.len())]];
+    let e = &registry()[pt[(usize::from(s.u16()) * pt.len()) >> 16]];
     let mut ctl = s.sub(24);
     // up to three attempts to obtain a value that embeds a Program
     let share = s.remaining() / 3;
